@@ -566,7 +566,8 @@ func (in *inst) execInstr(n *vnode, st *State, ins ssa.Instruction) {
 		loc := fv.newObject(st)
 		fv.zeroInit(st, loc, x.Type().(*types.Pointer).Elem())
 		av := Val{K: KLoc, T: loc, Typ: x.Type()}
-		fv.assumePtrType("true", av)
+		// the new cell holds exactly a value of its element type (also for scalar cells)
+		fv.assume("true", eq("(ltype "+loc+")", fmt.Sprint(fv.eng.tagOf(x.Type().(*types.Pointer).Elem()))))
 		if localOnly(x) {
 			// the cell never escapes this function: calls with unknown effects cannot reach it
 			fv.localRoots = append(fv.localRoots, loc)
